@@ -41,10 +41,19 @@ pub fn values_per_doc(tier: Tier, quick: u64, thorough: u64) -> u64 {
     }
 }
 
+/// Documents enumerated by the fault-enumeration checks: all but `DropProbeD`, whose `Drop` reads its
+/// borrowed data and therefore belongs to the ownership checks (C08/C09) only.
+pub fn enum_docs() -> Vec<&'static str> {
+    ALL_DOCS.iter().copied().filter(|d| *d != "DropProbeD").collect()
+}
+pub fn n_docs() -> u64 {
+    ALL_DOCS.len() as u64 - 1
+}
 /// unit → (document name, value index)
 pub fn unit_doc(unit: u64) -> (&'static str, u64) {
-    let n = ALL_DOCS.len() as u64;
-    (ALL_DOCS[(unit % n) as usize], unit / n)
+    let docs = enum_docs();
+    let n = docs.len() as u64;
+    (docs[(unit % n) as usize], unit / n)
 }
 
 pub fn gen_value<D: Doc>(seed: u64, tag: &str, vi: u64, tier: Tier) -> (D, usize) {
